@@ -443,6 +443,19 @@ fn parse_rules(schema: &str) -> Vec<RuleLine> {
             unguarded.push(id.clone());
             mediated.push(id.clone());
           }
+          if depth > 0 && !id.is_empty() {
+            // inside an array / map the reference is reached only with data in hand, but the *target of a control
+            // operator* (`[ t .size 3 ]`, `{ a: t .size 3 }`, `{ t .hex2 }`) and an *unwrapped name* (`[ ~t ]`) are
+            // still resolved by the alias-chasing helpers, which follow t = t forever whatever the data is
+            let end = i;
+            let start = end.saturating_sub(cur.chars().count());
+            let before: String = cs[..start].iter().collect::<String>().trim_end().to_string();
+            let after: String = cs[end.min(cs.len())..].iter().collect::<String>().trim_start().to_string();
+            let ctl_after = after.starts_with('.') && !after.starts_with("..");
+            if ctl_after || before.ends_with('~') {
+              mediated.push(id.clone());
+            }
+          }
           if depth == 0 && !id.is_empty() {
             unguarded.push(id.clone());
             // what surrounds the reference?
